@@ -83,13 +83,16 @@ Variable rank : qkey -> nat.
 Hypothesis Hrank : calls_below prog rank.
 Variable NF : nat.
 Hypothesis Hbound : forall q, (rank q < NF)%nat.
+Variable fm : bool.
 Notation E := (E prog NF).
 Notation tr := (tr prog NF).
 Notation durge := (durge prog NF).
 Notation clos := (clos prog NF).
-Notation dmemo_ok := (dmemo_ok prog NF).
-Notation DInv := (DInv prog NF).
+Notation dmemo_ok := (dmemo_ok prog NF fm).
+Notation DInv := (DInv prog NF fm).
 Notation obs_pre := (obs_pre prog NF).
+Notation obs_ok := (obs_ok prog NF).
+Notation good := (good prog NF fm).
 Notation E_hist_eq := (Salsa.Core.InvTop.E_hist_eq).
 Notation tr_hist_eq := (Salsa.Core.InvTop.tr_hist_eq).
 
@@ -145,19 +148,124 @@ Qed.
 Lemma evicted_sub_sim mm mm' : evicted_from mm mm' -> sub_sim mm mm'.
 Proof. intros Hev q m' Hm'. exact (evicted_bwd mm mm' q m' Hev Hm'). Qed.
 
+(* the same without the edges: stamps and durability are kept, values may be lost *)
+Definition core_sim (m m' : memo) : Prop :=
+  m_verified m' = m_verified m /\ m_changed m' = m_changed m /\ m_dur m' = m_dur m /\
+  (forall x, m_val m' = Some x -> m_val m = Some x).
+
+Definition sub_core (mm mm' : qkey -> option memo) : Prop :=
+  forall q m', mm' q = Some m' -> exists m, mm q = Some m /\ core_sim m m'.
+
+Lemma sub_sim_core mm mm' : sub_sim mm mm' -> sub_core mm mm'.
+Proof.
+  intros Hs q m' Hm'. destruct (Hs q m' Hm') as (m & Hm & (A & B & C & _ & _ & F)).
+  exists m. split; [exact Hm | repeat split; assumption].
+Qed.
+
 (* ---------------------------------------------------------------- the invariant modulo cells *)
 Definition DInv_d (H : hist) (D : dhist) (s : db) : Prop :=
   DInv H D (set_cell s (sn_cell (H (cur s)))).
 
-(* The general transfer lemma: from (dirty) s under (H, D) to s' under (H', D'). *)
-Lemma DInv_transfer H D H' D' s s' :
-  DInv_d H D s ->
-  cur s <= cur s' -> 1 <= cur s' -> revs_ok (d_revs s') ->
-  (forall k, lcs s k <= lcs s' k) ->
-  sub_sim (d_memo s) (d_memo s') ->
-  (* the past is kept wherever a memo was verified *)
-  (forall q m, d_memo s q = Some m ->
-     H' (m_verified m) = H (m_verified m) /\ forall i, D' (m_verified m) i = D (m_verified m) i) ->
+(* the clauses of a memo that speak about its edges *)
+Record edges_ok (H : hist) (D : dhist) (s : db) (q : qkey) (m : memo) : Prop := {
+  eo_in : forall i, In (RIn i) (tr H (m_verified m) q) -> In (EIn i) (m_edges m);
+  eo_q : m_untracked m = false ->
+         forall d, In (RQ d) (tr H (m_verified m) q) -> ~ In (EQ d) (m_edges m) ->
+         good H D s (m_edges m) (m_verified m) d;
+  eo_cell : forall x, In x (tr H (m_verified m) q) -> untr x -> m_untracked m = true;
+  eo_reach : forall d, In (EQ d) (m_edges m) -> reach prog q d;
+  eo_flat : fm = true \/ forall d, In (RQ d) (tr H (m_verified m) q) -> In (EQ d) (m_edges m);
+  eo_sync : m_dur m = 0 -> forall d md, In (EQ d) (m_edges m) -> d_memo s d = Some md ->
+            m_verified m <= m_verified md
+}.
+
+Lemma edges_ok_of H D s q m : dmemo_ok H D s q m -> edges_ok H D s q m.
+Proof. intros [a b c d e f g h i j k]. constructor; assumption. Qed.
+
+(* ---------------------------------------------------------------- from s under (H, D) to s' under (H', D') *)
+Section Transfer.
+Variables (H : hist) (D : dhist) (H' : hist) (D' : dhist) (s s' : db).
+Hypothesis HI : DInv_d H D s.
+Hypothesis Hc : cur s <= cur s'.
+Hypothesis Hlc : forall k, lcs s k <= lcs s' k.
+Hypothesis Hsub : sub_core (d_memo s) (d_memo s').
+(* the past is kept *)
+Hypothesis Hpast : forall r, r <= cur s -> H' r = H r /\ forall i, D' r i = D r i.
+
+Let Hver : forall q m, d_memo s q = Some m -> m_verified m <= cur s.
+Proof.
+  intros q m Hm. pose proof (mo_order _ _ _ _ _ _ _ _ (inv_memo _ _ _ _ _ _ HI q m Hm)) as (_ & _ & A).
+  exact A.
+Qed.
+
+Let sd := set_cell s (sn_cell (H (cur s))).
+
+Let obs_s g w k : obs_ok H D sd g w k -> obs_ok H D s g w k.
+Proof. apply (obs_ok_same prog NF H D sd s); reflexivity. Qed.
+
+Let good_s L v d : good H D sd L v d -> good H D s L v d.
+Proof.
+  apply (good_mono prog NF fm H D sd s); [apply N.le_refl|].
+  intros g w k. apply obs_s.
+Qed.
+
+Lemma obs_transfer g w k : obs_ok H D s g w k -> obs_ok H' D' s' g w k.
+Proof.
+  intros [a b c d]. destruct a as [a1 a2]. destruct (Hpast w a2) as [HHw HDw].
+  constructor.
+  - lia.
+  - apply (durge_hist_eq prog NF H D H' D'); assumption.
+  - exact c.
+  - intros d1 md' Hd1 Hmd' Hp. apply (clos_hist_eq prog NF H' H) in Hd1; [|symmetry; exact HHw].
+    destruct (Hsub d1 md' Hmd') as (md & Hmd & (T1 & T2 & T3 & _)).
+    rewrite T1, T3.
+    destruct (Hpast (m_verified md) (Hver d1 md Hmd)) as [HHd _].
+    rewrite (E_hist_eq prog NF H H' _ d1 HHw), (E_hist_eq prog NF H H' _ d1 HHd).
+    apply (d d1 md Hd1 Hmd). destruct Hp as [Hp | (k0 & Hk & Hlk)].
+    + left. rewrite <- T2. exact Hp.
+    + right. exists k0. split.
+      * apply (durge_hist_eq prog NF H' D' H D); [symmetry; exact HHw | intros i; symmetry; apply HDw | exact Hk].
+      * specialize (Hlc k0). lia.
+Qed.
+
+Lemma good_transfer L L' v d :
+  (forall e, In e L -> In e L') -> good H D s L v d -> good H' D' s' L' v d.
+Proof.
+  intros Hinc Hg. induction Hg as [d a k Hf Hk Ha Hd | d rho k Ho Hv Hu Hi Hq IH].
+  - destruct (Hpast a Ha) as [HHa HDa].
+    apply (good_never prog NF fm H' D' s' L' v d a k Hf Hk); [lia|].
+    apply (durge_hist_eq prog NF H D H' D'); assumption.
+  - pose proof (ob_order _ _ _ _ _ _ _ _ Ho) as (_ & Hr2).
+    destruct (Hpast rho Hr2) as [HHr _].
+    apply (good_exp prog NF fm H' D' s' L' v d rho k);
+      rewrite ?(tr_hist_eq prog NF H H' _ d HHr); auto.
+    apply obs_transfer. exact Ho.
+Qed.
+
+(* a memo with the same edges (as a set) and the same origin kind *)
+Lemma edges_sim q m m' :
+  d_memo s q = Some m -> memo_sim m m' ->
+  (forall d md', In (EQ d) (m_edges m') -> d_memo s' d = Some md' ->
+     exists md, d_memo s d = Some md /\ m_verified md' = m_verified md) ->
+  edges_ok H' D' s' q m'.
+Proof.
+  intros Hm (S1 & S2 & S3 & S4 & S5 & S6) Hd.
+  pose proof (inv_memo _ _ _ _ _ _ HI q m Hm) as Hok.
+  destruct (Hpast (m_verified m) (Hver q m Hm)) as [HHv HDv].
+  destruct Hok as [a0 b0 c0 d0 e0 f0 g0 h0 i0 j0 k0].
+  constructor; rewrite ?S1, ?S3, ?S4, ?(tr_hist_eq prog NF H H' _ q HHv); auto.
+  - intros i Hi. apply S5. apply c0. exact Hi.
+  - intros Hu0 d1 Hd1 Hn. apply (good_transfer (m_edges m)); [intros e He; apply S5; exact He|].
+    apply good_s. apply d0; [congruence | exact Hd1|]. intros Hin. apply Hn. apply S5. exact Hin.
+  - intros d1 Hd1. apply f0. apply S5. exact Hd1.
+  - destruct g0 as [A | A]; [left; exact A | right]. intros d1 Hd1. apply S5. apply A. exact Hd1.
+  - intros Hz d1 md' Hd1 Hmd'. destruct (Hd d1 md' Hd1 Hmd') as (md & Hmd & ->).
+    apply (k0 Hz d1 md); [apply S5; exact Hd1 | exact Hmd].
+Qed.
+
+Lemma DInv_transfer :
+  1 <= cur s' -> revs_ok (d_revs s') ->
+  (forall q m', d_memo s' q = Some m' -> edges_ok H' D' s' q m') ->
   (forall i r, f_changed (d_in s' i) <= r -> r <= cur s' -> sn_in (H' r) i = f_val (d_in s' i)) ->
   (forall i r, f_changed (d_in s' i) <= r -> r <= cur s' -> D' r i = f_dur (d_in s' i)) ->
   (forall i, f_changed (d_in s' i) <= cur s') ->
@@ -165,45 +273,34 @@ Lemma DInv_transfer H D H' D' s s' :
   (forall r i, D' r i <= 3) ->
   (forall r i, r < cur s' -> lcs s' (D' r i) <= r ->
      sn_in (H' (r + 1)) i = sn_in (H' r) i /\ D' (r + 1) i = D' r i) ->
+  (fm = true -> forall r i, D' r i = 0) ->
+  (fm = true -> forall k, 1 <= k -> lcs s' k <= 1) ->
   DInv H' D' s'.
 Proof.
-  intros HI Hc H1 Hrv Hlc Hev Hpast Hin Hdur Hinle Hcell Hd3 Hwr.
-  unfold DInv_d in HI. destruct HI as [a a' b b' c d e f g].
-  change (cur (set_cell s _)) with (cur s) in *.
-  change (d_memo (set_cell s _)) with (d_memo s) in *.
-  assert (Hok : forall q m m', d_memo s q = Some m -> memo_sim m m' -> dmemo_ok H' D' s' q m').
-  { intros q m m' Hm (S1 & S2 & S3 & S4 & S5 & S6). specialize (g q m Hm).
-    destruct g as [a0 b0 c0 d0 e0 f0 g0 h0 i0 j0].
-    destruct (Hpast q m Hm) as [HHv HDv].
-    assert (Hdg : forall k x, durge H D (m_verified m) k x -> durge H' D' (m_verified m) k x).
-    { intros k x. apply (durge_hist_eq prog NF H D H' D'); assumption. }
-    assert (Hdg' : forall k x, durge H' D' (m_verified m) k x -> durge H D (m_verified m) k x).
-    { intros k x. apply (durge_hist_eq prog NF H' D' H D); [symmetry; exact HHv | intros i; symmetry; apply HDv]. }
-    constructor; rewrite ?S1, ?S2, ?S3, ?S4, ?(tr_hist_eq prog NF H H' _ q HHv); auto.
-    - change (cur (set_cell s _)) with (cur s) in a0. lia.
-    - intros x Hx. rewrite (E_hist_eq prog NF H H' _ q HHv). apply b0. apply S6; exact Hx.
-    - intros i Hi. rewrite HDv. destruct (c0 i Hi) as [A | A]; [left; apply S5; exact A | right; exact A].
-    - intros d1 Hd1. destruct (d0 d1 Hd1) as [A | A]; [left; apply S5; exact A | right; apply Hdg; exact A].
-    - intros d1 Hd1. apply f0. apply S5. exact Hd1.
-    - intros d1 md' Hd1 Hmd' Hp. apply (clos_hist_eq prog NF H' H) in Hd1; [|symmetry; exact HHv].
-      destruct (Hev d1 md' Hmd') as (md & Hmd & (T1 & T2 & T3 & _)).
-      rewrite T1, T3.
-      destruct (Hpast d1 md Hmd) as [HHd _].
-      rewrite (E_hist_eq prog NF H H' _ d1 HHv), (E_hist_eq prog NF H H' _ d1 HHd).
-      apply (j0 d1 md Hd1); [exact Hmd|]. destruct Hp as [Hp | (k & Hk & Hlk)].
-      + left. rewrite <- T2. exact Hp.
-      + right. exists k. split; [apply Hdg'; exact Hk|].
-        change (lcs (set_cell s _) k) with (lcs s k). specialize (Hlc k). lia. }
+  intros H1 Hrv Hedges Hin Hdur Hinle Hcell Hd3 Hwr HlD Hlr.
   constructor; auto.
-  intros q m' Hm'. destruct (Hev q m' Hm') as (m & Hm & Hsim).
-  apply (Hok q m m' Hm Hsim).
+  intros q m' Hm'. destruct (Hsub q m' Hm') as (m & Hm & (S1 & S2 & S3 & S6)).
+  pose proof (obs_transfer q (m_verified m) (m_dur m)
+                (obs_s _ _ _ (obs_of_memo prog NF fm H D _ q m (inv_memo _ _ _ _ _ _ HI q m Hm)))) as Ho.
+  destruct (Hedges q m' Hm') as [e1 e2 e3 e4 e5 e6].
+  destruct (Hpast (m_verified m) (Hver q m Hm)) as [HHv HDv].
+  pose proof (mo_order _ _ _ _ _ _ _ _ (inv_memo _ _ _ _ _ _ HI q m Hm)) as (O1 & O2 & O3).
+  constructor; auto; rewrite ?S1, ?S2, ?S3.
+  - change (cur (set_cell s _)) with (cur s) in O3. lia.
+  - intros x Hx. rewrite (E_hist_eq prog NF H H' _ q HHv).
+    apply (mo_val _ _ _ _ _ _ _ _ (inv_memo _ _ _ _ _ _ HI q m Hm)). apply S6. exact Hx.
+  - apply (ob_durge _ _ _ _ _ _ _ _ Ho).
+  - apply (ob_dur3 _ _ _ _ _ _ _ _ Ho).
+  - apply (ob_obs _ _ _ _ _ _ _ _ Ho).
 Qed.
+
+End Transfer.
 
 Lemma DInv_to_d H D s : DInv H D s -> DInv_d H D s.
 Proof.
-  intros [a a' b b' c d e f g]. unfold DInv_d. constructor; auto.
-  intros q m Hm. specialize (g q m Hm). destruct g as [a0 b0 c0 d0 e0 f0 g0 h0 i0 j0].
-  constructor; auto.
+  intros [a a' b b' c d e f g l1 l2]. unfold DInv_d. constructor; auto.
+  intros q m Hm. apply (dmemo_ok_same prog NF fm H D s); [reflexivity | reflexivity|].
+  apply g. exact Hm.
 Qed.
 
 Lemma DInv_d_facts H D s : DInv_d H D s ->
@@ -213,12 +310,14 @@ Lemma DInv_d_facts H D s : DInv_d H D s ->
   (forall i r, f_changed (d_in s i) <= r -> r <= cur s -> D r i = f_dur (d_in s i)) /\
   (forall i, f_changed (d_in s i) <= cur s) /\ (forall r i, D r i <= 3) /\
   (forall r i, r < cur s -> lcs s (D r i) <= r ->
-     sn_in (H (r + 1)) i = sn_in (H r) i /\ D (r + 1) i = D r i).
+     sn_in (H (r + 1)) i = sn_in (H r) i /\ D (r + 1) i = D r i) /\
+  (fm = true -> forall r i, D r i = 0) /\ (fm = true -> forall k, 1 <= k -> lcs s k <= 1).
 Proof.
-  unfold DInv_d. intros [a a' b b' c d e f g].
+  unfold DInv_d. intros [a a' b b' c d e f g l1 l2].
   split; [exact a|]. split; [exact a'|]. split.
-  - intros q m Hm. pose proof (mo_order _ _ _ _ _ _ _ (g q m Hm)) as (_ & _ & Hv). exact Hv.
-  - split; [exact b|]. split; [exact b'|]. split; [exact c|]. split; [exact e | exact f].
+  - intros q m Hm. pose proof (mo_order _ _ _ _ _ _ _ _ (g q m Hm)) as (_ & _ & Hv). exact Hv.
+  - split; [exact b|]. split; [exact b'|]. split; [exact c|]. split; [exact e|].
+    split; [exact f|]. split; [exact l1 | exact l2].
 Qed.
 
 (* ---------------------------------------------------------------- "ok" states *)
@@ -231,8 +330,27 @@ Proof. intros (H & D & HI). exists H, D. apply DInv_to_d; exact HI. Qed.
 Lemma DInv_snap H D s : DInv H D s -> snap_eq (H (cur s)) (csnap s).
 Proof.
   intros HI. split; cbn.
-  - intros i. apply (inv_in _ _ _ _ _ HI); [apply (inv_in_le _ _ _ _ _ HI) | lia].
-  - apply (inv_cell _ _ _ _ _ HI).
+  - intros i. apply (inv_in _ _ _ _ _ _ HI); [apply (inv_in_le _ _ _ _ _ _ HI) | lia].
+  - apply (inv_cell _ _ _ _ _ _ HI).
+Qed.
+
+Lemma OK_d_inputs s : OK_d s ->
+  revs_ok (d_revs s) /\ (forall i, f_dur (d_in s i) <= 3) /\
+  (fm = true -> (forall i, f_dur (d_in s i) = 0) /\ forall k, 1 <= k -> lcs s k <= 1).
+Proof.
+  intros (H & D & HI).
+  destruct (DInv_d_facts H D s HI) as (F1 & F2 & F3 & F4 & F5 & F6 & F7 & F8 & F9 & F10).
+  split; [exact F2|]. split.
+  - intros i. rewrite <- (F5 i (cur s)); [apply F7 | apply F6 | lia].
+  - intros Hf. split; [|apply (F10 Hf)].
+    intros i. rewrite <- (F5 i (cur s)); [apply (F9 Hf) | apply F6 | lia].
+Qed.
+
+(* memos of s' that come from memos of s with the same edges: their dependencies' memos do *)
+Lemma sub_sim_deps mm mm' : sub_sim mm mm' ->
+  forall d md', mm' d = Some md' -> exists md, mm d = Some md /\ m_verified md' = m_verified md.
+Proof.
+  intros Hs d md' Hmd'. destruct (Hs d md' Hmd') as (md & Hmd & (A & _)). exists md. split; assumption.
 Qed.
 
 (* changes that keep the revision vector, the inputs and (up to eviction) the memos *)
@@ -241,14 +359,22 @@ Lemma OK_d_same s s' :
   sub_sim (d_memo s) (d_memo s') -> OK_d s'.
 Proof.
   intros (H & D & HI) Hr Hi Hev. exists H, D.
-  destruct (DInv_d_facts H D s HI) as (F1 & F2 & F3 & F4 & F5 & F6 & F7 & F8).
+  destruct (DInv_d_facts H D s HI) as (F1 & F2 & F3 & F4 & F5 & F6 & F7 & F8 & F9 & F10).
   assert (Hc : cur s' = cur s) by (unfold cur; rewrite Hr; reflexivity).
   unfold DInv_d.
-  apply (DInv_transfer H D H D s (set_cell s' (sn_cell (H (cur s'))))); auto;
-    change (cur (set_cell s' _)) with (cur s'); change (d_in (set_cell s' _)) with (d_in s');
-    change (d_revs (set_cell s' _)) with (d_revs s'); rewrite ?Hc, ?Hi, ?Hr; auto; try lia.
-  - intros k. unfold lcs. cbn. rewrite Hr. lia.
+  set (s2 := set_cell s' (sn_cell (H (cur s')))).
+  assert (Hlc : forall k, lcs s k <= lcs s2 k) by (intros k; unfold lcs; cbn; rewrite Hr; lia).
+  assert (Hpast : forall r, r <= cur s -> H r = H r /\ forall i, D r i = D r i) by (intros; split; reflexivity).
+  apply (DInv_transfer H D H D s s2 HI); auto;
+    change (cur s2) with (cur s'); change (d_in s2) with (d_in s'); change (d_memo s2) with (d_memo s');
+    change (d_revs s2) with (d_revs s'); rewrite ?Hc, ?Hi, ?Hr; auto; try lia.
+  - apply sub_sim_core. exact Hev.
+  - intros q m' Hm'. destruct (Hev q m' Hm') as (m & Hm & Hsim).
+    assert (Hcle : cur s <= cur s2) by (change (cur s2) with (cur s'); lia).
+    apply (edges_sim H D H D s s2 HI Hcle Hlc (sub_sim_core _ _ Hev) Hpast q m m' Hm Hsim).
+    intros d md' _ Hmd'. apply (sub_sim_deps _ _ Hev d md' Hmd').
   - intros r i Hlt Hl. apply F8; [exact Hlt|]. unfold lcs in *. cbn in Hl. rewrite Hr in Hl. exact Hl.
+  - intros Hf k Hk. specialize (F10 Hf k Hk). unfold lcs in *. cbn. rewrite Hr. exact F10.
 Qed.
 
 Lemma OK_same s s' :
@@ -256,59 +382,87 @@ Lemma OK_same s s' :
   sub_sim (d_memo s) (d_memo s') -> OK s'.
 Proof.
   intros (H & D & HI) Hr Hi Hce Hev. exists H, D.
-  destruct (DInv_d_facts H D s (DInv_to_d H D s HI)) as (F1 & F2 & F3 & F4 & F5 & F6 & F7 & F8).
+  pose proof (DInv_to_d H D s HI) as HId.
+  destruct (DInv_d_facts H D s HId) as (F1 & F2 & F3 & F4 & F5 & F6 & F7 & F8 & F9 & F10).
   assert (Hc : cur s' = cur s) by (unfold cur; rewrite Hr; reflexivity).
-  apply (DInv_transfer H D H D s s'); rewrite ?Hc, ?Hi, ?Hr; auto; try lia.
-  - apply DInv_to_d; exact HI.
-  - intros k. unfold lcs. rewrite Hr. lia.
-  - rewrite Hce. apply (inv_cell _ _ _ _ _ HI).
+  assert (Hlc : forall k, lcs s k <= lcs s' k) by (intros k; unfold lcs; rewrite Hr; lia).
+  assert (Hpast : forall r, r <= cur s -> H r = H r /\ forall i, D r i = D r i) by (intros; split; reflexivity).
+  apply (DInv_transfer H D H D s s' HId); rewrite ?Hc, ?Hi, ?Hr; auto; try lia.
+  - apply sub_sim_core. exact Hev.
+  - intros q m' Hm'. destruct (Hev q m' Hm') as (m & Hm & Hsim).
+    assert (Hcle : cur s <= cur s') by lia.
+    apply (edges_sim H D H D s s' HId Hcle Hlc (sub_sim_core _ _ Hev) Hpast q m m' Hm Hsim).
+    intros d md' _ Hmd'. apply (sub_sim_deps _ _ Hev d md' Hmd').
+  - rewrite Hce. apply (inv_cell _ _ _ _ _ _ HI).
   - intros r i Hlt Hl. apply F8; [exact Hlt|]. unfold lcs in *. rewrite Hr in Hl. exact Hl.
+  - intros Hf k Hk. specialize (F10 Hf k Hk). unfold lcs in *. rewrite Hr. exact F10.
 Qed.
 
 (* a state in which nothing has been verified at the current revision yet *)
 Definition fresh (s : db) : Prop :=
   forall q m, d_memo s q = Some m -> m_verified m < cur s.
 
-(* starting a new revision: the current-revision slot moves, nothing else *)
-Lemma OK_advance s s' :
+(* Starting a new revision and, inside it, rewriting the inputs: the current-revision slot
+   moves by one, a write reports the OLD durability of what it writes (so the other slots only
+   move forward, to the new revision at most), and every input that changes is stamped with
+   the new revision and had a level that was reported.  [s'] is the state when the writes are
+   done.  (No write at all: a plain new revision.) *)
+Lemma OK_advance_gen s s' :
   OK_d s ->
-  d_revs s' = {| r_cur := r_cur (d_revs s) + 1; r_med := r_med (d_revs s); r_high := r_high (d_revs s) |} ->
-  d_in s' = d_in s ->
+  r_cur (d_revs s') = r_cur (d_revs s) + 1 -> revs_ok (d_revs s') ->
+  (forall k, lcs s k <= lcs s' k) ->
+  (* an input is untouched, or stamped now after its old level was reported *)
+  (forall i, d_in s' i = d_in s i \/
+             (f_changed (d_in s' i) = cur s' /\ lcs s' (f_dur (d_in s i)) = cur s')) ->
+  (forall i, f_dur (d_in s' i) <= 3) ->
+  (fm = true -> (forall i, f_dur (d_in s' i) = 0) /\ forall k, 1 <= k -> lcs s' k <= 1) ->
   sub_sim (d_memo s) (d_memo s') ->
   OK s' /\ fresh s'.
 Proof.
-  intros (H & D & HI) Hr Hi Hev.
-  destruct (DInv_d_facts H D s HI) as (F1 & F2 & F3 & F4 & F5 & F6 & F7 & F8).
-  assert (Hc : cur s' = cur s + 1) by (unfold cur; rewrite Hr; reflexivity).
-  assert (Hlc : forall k, lcs s k <= lcs s' k).
-  { intros k. unfold lcs. rewrite Hr.
-    destruct (lc_cases (d_revs s) k) as [[-> ->] | [[-> ->] | [[-> ->] | [Hk ->]]]]; cbn; try lia.
-    rewrite lc_never by exact Hk. lia. }
+  intros (H & D & HI) Hrc Hrv Hlc Hins Hd3 Hlow Hev.
+  destruct (DInv_d_facts H D s HI) as (F1 & F2 & F3 & F4 & F5 & F6 & F7 & F8 & F9 & F10).
+  assert (Hc : cur s' = cur s + 1) by (unfold cur; exact Hrc).
+  assert (Hpast : forall r, r <= cur s ->
+            extend H (cur s') (csnap s') r = H r /\
+            forall i, extendD D (cur s') (durs_of s') r i = D r i).
+  { intros r Hr. split; [apply extend_other; lia | intros i; rewrite extendD_other by lia; reflexivity]. }
   split.
   - exists (extend H (cur s') (csnap s')), (extendD D (cur s') (durs_of s')).
-    apply (DInv_transfer H D _ _ s s'); auto; try lia.
-    + destruct F2 as (A & B & C). rewrite Hr. unfold revs_ok; cbn. lia.
-    + intros q m Hm. specialize (F3 q m Hm).
-      split; [apply extend_other; lia | intros i; rewrite extendD_other by lia; reflexivity].
-    + intros i r Hle Hrc. destruct (N.eq_dec r (cur s')) as [-> | Hne].
+    apply (DInv_transfer H D _ _ s s' HI); auto; try lia.
+    + apply sub_sim_core. exact Hev.
+    + intros q m' Hm'. destruct (Hev q m' Hm') as (m & Hm & Hsim).
+      assert (Hcle : cur s <= cur s') by lia.
+      apply (edges_sim H D _ _ s s' HI Hcle Hlc (sub_sim_core _ _ Hev) Hpast q m m' Hm Hsim).
+      intros d md' _ Hmd'. apply (sub_sim_deps _ _ Hev d md' Hmd').
+    + intros i r Hle Hrc'. destruct (N.eq_dec r (cur s')) as [-> | Hne].
       * rewrite extend_same. reflexivity.
-      * rewrite extend_other by exact Hne. rewrite Hi in *. apply F4; lia.
-    + intros i r Hle Hrc. destruct (N.eq_dec r (cur s')) as [-> | Hne].
+      * rewrite extend_other by exact Hne.
+        destruct (Hins i) as [Hsame | (Hst & _)]; [|lia].
+        rewrite Hsame in *. apply F4; lia.
+    + intros i r Hle Hrc'. destruct (N.eq_dec r (cur s')) as [-> | Hne].
       * rewrite extendD_same. reflexivity.
-      * rewrite extendD_other by exact Hne. rewrite Hi in *. apply F5; lia.
-    + intros i. rewrite Hi. specialize (F6 i). lia.
+      * rewrite extendD_other by exact Hne.
+        destruct (Hins i) as [Hsame | (Hst & _)]; [|lia].
+        rewrite Hsame in *. apply F5; lia.
+    + intros i. destruct (Hins i) as [Hsame | (Hst & _)]; [|lia].
+      rewrite Hsame. specialize (F6 i). lia.
     + intros c. rewrite extend_same. reflexivity.
-    + intros r i. unfold extendD. destruct (r =? cur s'); [|apply F7].
-      unfold durs_of. rewrite Hi. rewrite <- (F5 i (cur s)); [apply F7 | apply F6 | lia].
+    + intros r i. unfold extendD. destruct (r =? cur s'); [|apply F7]. apply Hd3.
     + intros r i Hlt Hl.
       destruct (N.eq_dec (r + 1) (cur s')) as [Heq | Hne].
       * assert (r = cur s) by lia. subst r.
+        rewrite extendD_other in Hl by lia.
         rewrite Heq, extend_same, extendD_same, extend_other, extendD_other by lia.
-        unfold durs_of; cbn. rewrite Hi.
+        rewrite (F5 i (cur s)) in Hl; [|apply F6 | lia].
+        destruct (Hins i) as [Hsame | (_ & Hrep)]; [|lia].
+        unfold durs_of, csnap; cbn [sn_in]. rewrite Hsame.
         split; symmetry; [apply F4 | apply F5]; try apply F6; lia.
       * rewrite !extend_other, !extendD_other by lia.
         rewrite extendD_other in Hl by lia.
         apply F8; [lia|]. specialize (Hlc (D r i)). lia.
+    + intros Hf r i. destruct (Hlow Hf) as [Hz _]. unfold extendD.
+      destruct (r =? cur s'); [apply Hz | apply (F9 Hf)].
+    + intros Hf. apply (proj2 (Hlow Hf)).
   - intros q m' Hm'. destruct (Hev q m' Hm') as (m & Hm & (S1 & _)).
     rewrite S1. specialize (F3 q m Hm). lia.
 Qed.
@@ -316,96 +470,22 @@ Qed.
 (* a revision-vector change alone (a synthetic write): levels only move forward *)
 Lemma OK_revs s s' :
   OK s -> cur s' = cur s -> revs_ok (d_revs s') -> (forall k, lcs s k <= lcs s' k) ->
+  (fm = true -> forall k, 1 <= k -> lcs s' k <= 1) ->
   d_in s' = d_in s -> d_cell s' = d_cell s -> d_memo s' = d_memo s -> OK s'.
 Proof.
-  intros (H & D & HI) Hc Hrv Hlc Hi Hce Hm. exists H, D.
-  destruct (DInv_d_facts H D s (DInv_to_d H D s HI)) as (F1 & F2 & F3 & F4 & F5 & F6 & F7 & F8).
-  apply (DInv_transfer H D H D s s'); rewrite ?Hc, ?Hi; auto; try lia.
-  - apply DInv_to_d; exact HI.
-  - rewrite Hm. apply evicted_sub_sim, evicted_refl.
-  - rewrite Hce. apply (inv_cell _ _ _ _ _ HI).
+  intros (H & D & HI) Hc Hrv Hlc Hlow Hi Hce Hm. exists H, D.
+  pose proof (DInv_to_d H D s HI) as HId.
+  destruct (DInv_d_facts H D s HId) as (F1 & F2 & F3 & F4 & F5 & F6 & F7 & F8 & F9 & F10).
+  assert (Hev : sub_sim (d_memo s) (d_memo s')) by (rewrite Hm; apply evicted_sub_sim, evicted_refl).
+  assert (Hpast : forall r, r <= cur s -> H r = H r /\ forall i, D r i = D r i) by (intros; split; reflexivity).
+  apply (DInv_transfer H D H D s s' HId); rewrite ?Hc, ?Hi; auto; try lia.
+  - apply sub_sim_core. exact Hev.
+  - intros q m' Hm'. destruct (Hev q m' Hm') as (m & Hm0 & Hsim).
+    assert (Hcle : cur s <= cur s') by lia.
+    apply (edges_sim H D H D s s' HId Hcle Hlc (sub_sim_core _ _ Hev) Hpast q m m' Hm0 Hsim).
+    intros d md' _ Hmd'. apply (sub_sim_deps _ _ Hev d md' Hmd').
+  - rewrite Hce. apply (inv_cell _ _ _ _ _ _ HI).
   - intros r i Hlt Hl. apply F8; [exact Hlt|]. specialize (Hlc (D r i)). lia.
 Qed.
-
-(* the write rule: rewriting ONE input inside a fresh revision, reporting its OLD durability *)
-Lemma OK_write s i v nd :
-  OK s -> fresh s -> f_dur (d_in s i) <> 3 -> nd <= 3 ->
-  let od := f_dur (d_in s i) in
-  let r1 := if od =? D_LOW then d_revs s else report_write (d_revs s) od in
-  let f' := {| f_val := v; f_changed := cur s; f_dur := nd |} in
-  OK (set_in (set_revs s r1) (upd (d_in s) i f')).
-Proof.
-  intros (H & D & HI) Hfresh Hod Hnd od r1 f'.
-  set (s' := set_in (set_revs s r1) (upd (d_in s) i f')).
-  destruct (DInv_d_facts H D s (DInv_to_d H D s HI)) as (F1 & F2 & F3 & F4 & F5 & F6 & F7 & F8).
-  assert (Hod3 : od < 3).
-  { unfold od. pose proof (F7 (cur s) i) as A. rewrite (F5 i (cur s)) in A; [lia | apply F6 | lia]. }
-  assert (Hcur_r1 : r_cur r1 = r_cur (d_revs s)).
-  { unfold r1. destruct (od =? D_LOW); reflexivity. }
-  assert (Hc : cur s' = cur s) by (unfold cur, s'; cbn; exact Hcur_r1).
-  assert (Hrv : revs_ok r1).
-  { unfold r1. destruct (od =? D_LOW); [exact F2 | apply revs_ok_report_write; exact F2]. }
-  assert (Hlc : forall k, lcs s k <= lcs s' k).
-  { intros k. unfold lcs, s'; cbn. unfold r1. destruct (od =? D_LOW); [lia|].
-    apply lc_report_write_ge; exact F2. }
-  assert (Hlc_od : forall k, k <= od -> lcs s' k = cur s).
-  { intros k Hk. unfold lcs, s'; cbn. unfold r1.
-    destruct (N.eqb_spec od D_LOW) as [H0 | H0].
-    - unfold D_LOW in H0. replace k with 0 by lia. apply lc_zero.
-    - rewrite lc_report_write.
-      destruct (N.eqb_spec k 0) as [-> | Hk0]; [reflexivity|].
-      destruct (N.leb_spec k od) as [_ | Hx]; [|lia].
-      destruct (N.ltb_spec k 3) as [_ | Hx]; [|lia]. reflexivity. }
-  assert (Hin' : forall j, j <> i -> d_in s' j = d_in s j).
-  { intros j Hj. unfold s'; cbn. apply upd_other. congruence. }
-  assert (Hin_i : d_in s' i = f') by (unfold s'; cbn; apply upd_same).
-  exists (extend H (cur s') (csnap s')), (extendD D (cur s') (durs_of s')).
-  apply (DInv_transfer H D _ _ s s'); auto; try lia.
-  - apply DInv_to_d; exact HI.
-  - apply evicted_sub_sim, evicted_refl.
-  - intros q m Hm. specialize (Hfresh q m Hm).
-    split; [apply extend_other; lia | intros j; rewrite extendD_other by lia; reflexivity].
-  - intros j r Hle Hrc. destruct (N.eq_dec r (cur s')) as [-> | Hne].
-    + rewrite extend_same. reflexivity.
-    + rewrite extend_other by exact Hne.
-      destruct (key_eqb_spec j i) as [-> | Hji].
-      * rewrite Hin_i in Hle. cbn in Hle. lia.
-      * rewrite (Hin' j Hji) in *. apply F4; lia.
-  - intros j r Hle Hrc. destruct (N.eq_dec r (cur s')) as [-> | Hne].
-    + rewrite extendD_same. reflexivity.
-    + rewrite extendD_other by exact Hne.
-      destruct (key_eqb_spec j i) as [-> | Hji].
-      * rewrite Hin_i in Hle. cbn in Hle. lia.
-      * rewrite (Hin' j Hji) in *. apply F5; lia.
-  - intros j. destruct (key_eqb_spec j i) as [-> | Hji].
-    + rewrite Hin_i. cbn. lia.
-    + rewrite (Hin' j Hji). specialize (F6 j). lia.
-  - intros c. rewrite extend_same. reflexivity.
-  - intros r j. unfold extendD. destruct (r =? cur s'); [|apply F7].
-    unfold durs_of. destruct (key_eqb_spec j i) as [-> | Hji].
-    + rewrite Hin_i. cbn. exact Hnd.
-    + rewrite (Hin' j Hji). rewrite <- (F5 j (cur s)); [apply F7 | apply F6 | lia].
-  - intros r j Hlt Hl.
-    destruct (N.eq_dec (r + 1) (cur s')) as [Heq | Hne].
-    + (* the step into the rewritten revision *)
-      rewrite extendD_other in Hl by lia.
-      rewrite Heq, extend_same, extendD_same, extend_other, extendD_other by lia.
-      assert (Hr1 : r + 1 = cur s) by lia.
-      destruct (key_eqb_spec j i) as [-> | Hji].
-      * exfalso.
-        destruct (N.le_gt_cases (lcs s (D r i)) r) as [Hold | Hold].
-        -- destruct (F8 r i) as [_ B]; [lia | exact Hold|].
-           rewrite Hr1 in B. rewrite (F5 i (cur s)) in B; [|apply F6 | lia].
-           fold od in B. rewrite <- B in Hl. rewrite Hlc_od in Hl by lia. lia.
-        -- specialize (Hlc (D r i)). lia.
-      * unfold durs_of, csnap. cbn [sn_in]. rewrite !(Hin' j Hji).
-        destruct (F8 r j) as [A B]; [lia | specialize (Hlc (D r j)); lia|].
-        rewrite Hr1 in A, B.
-        rewrite <- A, <- B. split; symmetry; [apply F4 | apply F5]; try apply F6; lia.
-    + rewrite !extend_other, !extendD_other by lia.
-      rewrite extendD_other in Hl by lia.
-      apply F8; [lia|]. specialize (Hlc (D r j)). lia.
-Qed.
-
 
 End Top.
